@@ -279,6 +279,9 @@ class C10(CompSpec):
                 for h in handles:
                     h["host"] = "hostA"
                     h["prog"] = h["prog"] + ["load", "promote", "work", "demote", "stale_write", "stale_promote"]
+            elif i % 8 == 1:
+                # a handle stalls inside a cluster-lock hold for longer than the lock timeout: the others must fail loudly and leave its lock alone
+                scen["slow_holder"] = rng.randint(1, 12)
             out.append({"fn": "sim", "args": {"scen": scen, "seed": s, "id": i, "cls": "comp.c10:S10", "prepare": "comp.c10:prepare", "trace_n": 150}})
         for i in range(self.nsim[tier]):
             s = sub_seed(seed, i, "C10sim")
@@ -336,6 +339,7 @@ class C10(CompSpec):
             "lock_timeouts_after_poisoned_marker": total(ok, "timeouts"),
             "actor_steps_with_version_check": total(ok, "steps_version_checked"),
             "histories_with_a_writer_killed_mid_write": sum(1 for r in ok if r.get("killed_handle")),
+            "histories_with_a_holder_stalled_beyond_the_lock_timeout": sum(1 for r in ok if r.get("slow_holder_stalled")),
             "kill_sites": hist(r.get("kill_site") for r in ok if r.get("kill_site")),
             "out_of_date_writes_judged_after_a_kill": total(ok, "stale_after_kill"),
             "context_switches": total(ok, "switches"),
